@@ -140,13 +140,27 @@ def r14_3(ctx):
     return vals
 
 
-def spec_numeric(n, too_big):
+def c1_char(n):
+    try:
+        return bytes([n]).decode("cp1252")
+    except UnicodeDecodeError:
+        return None
+
+
+def spec_numeric(n, too_big, table_says=None):
+    """table_says: the path's assumption about C1_REPLACEMENTS[n - 0x80] (True = Some, False = None, None = the table was not
+    consulted).  R14.3 has established that the table is cp1252, so a path that assumes the opposite is infeasible (None)."""
     if too_big or n > 0x10FFFF:
         return {repr(chr(0xFFFD))}
     if n == 0 or 0xD800 <= n <= 0xDFFF:
         return {repr(chr(0xFFFD))}
     if 0x80 <= n <= 0x9F:
-        return {"C1[%d]" % (n - 0x80), repr(chr(n))}
+        c = c1_char(n)
+        if table_says is not None and table_says != (c is not None):
+            return None
+        if c is not None:
+            return {"C1[%d]" % (n - 0x80), repr(c)}  # read from the table, or written out
+        return {repr(chr(n))}
     return {repr(chr(n))}
 
 
@@ -193,11 +207,14 @@ def r14_4(ctx, which, rule="R14.4"):
     for p in paths:
         n = None
         too_big = None
+        table_says = None
         for kind, label, chosen in p["choices"]:
             if label == "field self.num":
                 n = int(chosen[1:])
             if label == "self.num_too_big":
                 too_big = chosen == "true"
+            if n is not None and re.fullmatch(r"C1_REPLACEMENTS\[%d\] matches Some\(_\)" % (n - 0x80), label.split("::")[-1]):
+                table_says = chosen == "true"
         if n is None:
             continue
         out = p["outcome"]
@@ -211,7 +228,9 @@ def r14_4(ctx, which, rule="R14.4"):
         got = m.group(1) if m else txt
         got = re.sub(r"^C1_REPLACEMENTS\[(\d+)\]\.0$", lambda mm: "C1[%s]" % mm.group(1), got.split("::")[-1])
         for tb in ([too_big] if too_big is not None else [False, True]):
-            exp = spec_numeric(n, tb)
+            exp = spec_numeric(n, tb, table_says)
+            if exp is None:
+                continue
             checked += 1
             ok = got in exp or (got.startswith("C1[") and got in exp)
             if not ok:
@@ -370,6 +389,11 @@ def charref_start_states_rule(ctx, rule):
 
 
 def run(ctx):
+    ctx.rule("R14.12", "the character-reference sub-tokenizer, state by state and per class of the peeked character, performs the abstract steps of the WHATWG character reference states as transcribed in rules/charrefspec.py (consume or not, next state, what is remembered, how the step answers); the decoding path of finish_named hands back name_buf[name_len..] and yields the table entry's code points (HTML; xml5ever's twin for all states but Begin)")
+    from . import charrefspec as _crs
+    for _w in ("html", "xml"):
+        _k = ctx.guard("R14.12", "charref-machine/" + _w, lambda _w=_w: _crs.charref_machine(ctx, "R14.12", _w))
+        ctx.floor("R14.12", "charref-rows/" + _w, _k or 0, 60 if _w == "html" else 50)
     ctx.guard("R14.6", "semicolon/xml", lambda: semicolon_rule(ctx, "R14.6", "xml"))
     ctx.rule("R14.11", "a digit-less '&#x' / '&#X' is handed back with the marker character as it was read")
     from . import tokrules as _tr11
